@@ -554,7 +554,7 @@ pub fn run_scenario_events(s: &Scenario, cfg: &IndexCfg, audit_from: usize, tag:
     if i < audit_from {
       continue;
     }
-    match util::catch(|| index.update()) {
+    match util::catch(|| util::watched(|| index.update())) {
       Ok(Ok(())) => {}
       Ok(Err(err)) => {
         e.fail("C16", "update/error", format!("Index::update returned an error on a valid chain: {err:#}"));
